@@ -426,6 +426,14 @@ def gen_case(ctx: Ctx, geom, jnp, D, use_real_bank=False, idx=None):
     nmax = 3 if D == 2 else 2
     in_sig = gen_sig(rng, types, nmax)
     target = gen_sig(rng, types, nmax)
+    uniform = idx is not None and idx % 7 == 3
+    if uniform:
+        # equal channel counts on each side, a complete bank with one filter size, target types NOT in sorted
+        # order (the configuration in which one fused convolution could replace the per-pair ones)
+        ci, co = int(rng.integers(1, 4)), int(rng.integers(1, 4))
+        in_sig = [((1, 0), ci), ((0, 0), ci)] if rng.integers(2) else [((0, 0), ci), ((1, 0), ci)]
+        target = [((1, 0), co), ((0, 0), co)]
+    ctx.hist("uniform_channels_unsorted_targets", uniform)
     kind, opts = gen_opts(rng, D, kind=None if idx is None else PADKINDS[idx % len(PADKINDS)])
     need = sorted({fkey(s, t) for s, _ in in_sig for t, _ in target})
     if use_real_bank:
@@ -436,7 +444,7 @@ def gen_case(ctx: Ctx, geom, jnp, D, use_real_bank=False, idx=None):
         bankkind = "invariant"
     else:
         keys = list(need)
-        if rng.random() < 0.45 and len(keys) > 1:
+        if rng.random() < 0.45 and len(keys) > 1 and not uniform:
             drop = rng.permutation(len(keys))[: int(rng.integers(1, min(3, len(keys))))]
             keys = [k for i, k in enumerate(keys) if i not in set(int(v) for v in drop)]
         if kind in ("none", "TORUS", "SAME"):
@@ -463,7 +471,7 @@ def gen_case(ctx: Ctx, geom, jnp, D, use_real_bank=False, idx=None):
         torus[int(np.argmin(N))] = True
     # input: the declared blocks (sometimes one is absent), in an order that differs from input_keys
     present = list(in_sig)
-    if len(present) > 1 and rng.random() < 0.2:
+    if len(present) > 1 and rng.random() < 0.2 and not uniform:
         present.pop(int(rng.integers(len(present))))
     order = [int(i) for i in rng.permutation(len(present))]
     if len(order) > 1 and order == sorted(order) and rng.random() < 0.7:
